@@ -83,7 +83,7 @@ def run(ctx):
     # known finding ref-member-attribute (the runner reports `in_dir`); every other name must behave identically.
     acases = []
     for i in range(ctx.pick(60, 800)):
-        c = mc.gen_history(ctx.rng, "assign", nops=ctx.rng.randint(2, 6), nofun=True)
+        c = mc.gen_history(ctx.rng, "assign", nops=ctx.rng.randint(2, 6), nofun=True, attrdict=False)
         for _ in range(ctx.rng.randint(1, 3)):
             owner = ctx.rng.choice([["g"], ["g"], ["c", ["i", "n"]], ["c"]])
             name = ctx.rng.choice(ATTR_NAMES)
